@@ -102,15 +102,18 @@ Definition step (w : world) (o : op) : world * list obs :=
           p_ts := n 4%nat; p_ifid := n 5%nat mod 2^32; p_vendor := n 6%nat mod 65536; p_flags := n 7%nat mod 256;
           p_seg := n 11%nat mod 256 |}, [])
   else if c =? 7 then (setpk w (n 0%nat) default_packet, [])
-  else if (c =? 8) || (c =? 9) || (c =? 10) then
+  else if (c =? 8) || (c =? 9) || (c =? 10) || (c =? 42) then
     let idxs := skipn 2 (o_nums o) in
     let batch := map (getpk w) idxs in
     (* operator[] on the packet map creates missing slots *)
     let w0 := fold_left (fun w i => match aget i (w_pk w) with Some _ => w | None => setpk w i default_packet end) idxs w in
     let '(e', fs) := encode (w_enc w0) batch (n 0%nat) (n 1%nat) in
     ({| w_enc := e'; w_dec := w_dec w0; w_pk := w_pk w0; w_ob := w_ob w0; w_frames := fs; w_st := w_st w0 |},
-     map (fun f => ob T_F [] [f]) fs ++ [ob T_Q [zlen fs; e_seq e'] []])
+     (if c =? 42 then [] else map (fun f => ob T_F [] [f]) fs) ++ [ob T_Q [zlen fs; e_seq e'] []])
   else if c =? 11 then (setdec w (n 0%nat) [], [])
+  else if c =? 44 then
+    (* Decoder copy construction: the copy gets the source's reassembly table as a value *)
+    match aget (n 1%nat) (w_dec w) with Some s => (setdec w (n 0%nat) s, []) | None => (w, []) end
   else if c =? 12 then feed w (n 0%nat) (b 0%nat)
   else if c =? 13 then feed_all w (n 0%nat) (w_frames w)
   else if c =? 14 then ({| w_enc := w_enc w; w_dec := adel (n 0%nat) (w_dec w); w_pk := w_pk w; w_ob := w_ob w;
@@ -176,6 +179,13 @@ Definition step (w : world) (o : op) : world * list obs :=
     let e := packet_eqb (getpk w (n 0%nat)) (getpk w (n 1%nat)) in (w, [ob T_B [b2z e; b2z (negb e)] []])
   else if c =? 30 then (w, [k_obs (getpk w (n 0%nat))])
   else if c =? 31 then (setpk w (n 0%nat) (mut_packet (getpk w (n 0%nat))), [])
+  else if c =? 43 then
+    (* Payload::setMessageType + setRawPayloadType on the packet's payload: the type changes, the bytes stay *)
+    let p := getpk w (n 0%nat) in
+    match p_pl p with
+    | Some pl => (setpk w (n 0%nat) (set_payload p {| pl_type := mk_type (n 1%nat mod 256) (n 2%nat mod 256); pl_data := pl_data pl |}), [])
+    | None => (w, [])
+    end
   else if c =? 32 then
     match aget (n 1%nat) (w_ob w) with Some (k, p) => (setob w (n 0%nat) k p, []) | None => (w, []) end
   else if c =? 33 then
